@@ -77,6 +77,7 @@ static void post_inserted(void)
 	VERIF_ASSERT(X.next == LF_TAG(LF_AT(P + 1), G_bucket_flag ? 2 : 0), "add: new node links to the predecessor's old successor; BUCKET flag iff a bucket is being inserted");
 	VERIF_ASSERT(G_pool[P].reverse_hash <= X.reverse_hash, "add: order kept on the left");
 	VERIF_ASSERT(P + 1 >= G_n || X.reverse_hash <= G_pool[P + 1].reverse_hash, "add: order kept on the right");
+	VERIF_ASSERT(G_bucket_flag || !(P + 1 < G_n && (G_fl[P + 1] & 2) && G_pool[P + 1].reverse_hash == X.reverse_hash), "add: a user node is never linked IN FRONT of a bucket node of equal reverse hash (it would be unreachable from that bucket once the grow that is adding it publishes the new size)");
 	VERIF_ASSERT(G_w == P || G_pool[G_w].next == G_wv, "add: no other chain node modified");
 	VERIF_ASSERT(G_w != P || 1, "witness may coincide with the insertion point");
 }
